@@ -79,4 +79,28 @@ def run(tier, seed):
             continue
         if drv:
             campaign(res, h, drv, make_cases(seed + len(fl), tier), fl)
+    # the tree must not depend on how many members the OpenMP runtime GRANTS (nested region, thread limit) nor on their
+    # order: the same grid, 5 threads requested, on the stand-in runtime of the C12 check granting 1, 2 or all, permuted
+    hs, err = build_harness("ompseq")
+    if err:
+        res.broken.append(("harness build (ompseq)", err))
+    elif drv:
+        rng = Rng(seed ^ 0xC08AA)
+        cases = []
+        for c in make_cases(seed + 77, "quick"):
+            toks = c["line"].lstrip("!").split()
+            if toks[0] == "mt":
+                toks[5] = "5"
+            elif toks[0] == "mtb":
+                toks[6] = "5"
+            else:
+                continue
+            if rng.below(3):
+                continue
+            cc = dict(c)
+            cap = rng.choice([1, 2, 0])
+            cc["line"] = "@0:8:%x:%d %s" % (rng.below(1 << 30), cap, " ".join(toks))
+            cc["tag"] = (c.get("tag") or "") + "|granted<=%s" % (cap or "all")
+            cases.append(cc)
+        campaign(res, hs, drv, cases, "ompseq")
     return res.finish()
